@@ -186,12 +186,27 @@ def run(ctx):
         if p.get("kind") in ("systrace", "suite-table"):
             sysrepo.run(ctx, locking_mc, LOCK_TABLE_INTENDED)
             return
+        if p.get("kind") == "bulk":
+            rc, bj, err = ctx.harness(["conc-bulk", "-n", "20000", "-rounds", "2"], timeout=1800)
+            for m in (bj.get("mismatches") or [])[:4]:
+                common.report(ctx, "c07-bulk-%s" % m["op"], "bulk %s: %s" % (m["op"], m["detail"]), {"kind": "bulk", "op": m["op"]})
+            return
         runs = os.path.join(ctx.scratch, "replay_runs.ndjson")
         open(runs, "w").write((p["run"] + "\n") * 20)      # schedules differ from run to run: repeat
         record_and_validate(ctx, "replay", runs)
         return
     d = design(ctx)
     # every command the repository's own suite issues, judged at its linearization point (SysTrace) and as a class table (Locking)
+    # multi-object operations on large collections are one step (Locking: the exclusive lock is held from the first to the
+    # last object): readers never see them half applied, and the log order is the order of application
+    rc, bj, err = ctx.harness(["conc-bulk", "-n", str(ctx.pick(20000, 60000)), "-rounds", str(ctx.pick(2, 4))], timeout=1800)
+    bst = bj["stats"]
+    ctx.log("bulk operations: %d operations (PDEL, DROP, FLUSHDB, RENAME) on %d objects with %d concurrent reads and %d concurrent writes, %d mismatches"
+            % (bst["operations"], bst["objects"], bst["concurrent_reads"], bst["concurrent_writes"], len(bj.get("mismatches") or [])))
+    for m in (bj.get("mismatches") or [])[:4]:
+        common.report(ctx, "c07-bulk-%s" % m["op"], "bulk %s: %s" % (m["op"], m["detail"]), {"kind": "bulk", "op": m["op"]})
+    if bst["concurrent_reads"] == 0 or bst["concurrent_writes"] == 0:
+        raise common.Infra("no command ran next to the bulk operations (vacuous)")
     sysr = sysrepo.run(ctx, locking_mc, LOCK_TABLE_INTENDED)
     r, beh, n = gen_behaviours(ctx, "progs", ctx.pick(240, 6000), ctx.pick(60, 100))
     runs = os.path.join(ctx.scratch, "runs.ndjson")
